@@ -237,3 +237,10 @@ Lemma hoareE_bind2 {A B} (m : world -> res A) (f : A -> world -> res B) w (Q1 : 
       (Q : B -> world -> Prop) (QE : world -> Prop) :
   hoareE m w Q1 QE1 -> (forall w', QE1 w' -> QE w') -> (forall a w', Q1 a w' -> hoareE (f a) w' Q QE) -> hoareE (bind m f) w Q QE.
 Proof. unfold hoareE, bind. intros H1 HE H2. destruct (m w) as [a w'|e w']; [apply H2, H1|apply HE, H1]. Qed.
+
+(* decide comparisons between named constants (state numbers, PDU types) *)
+Ltac const_dec :=
+  repeat match goal with
+  | |- context [Z.eqb ?a ?b] => is_const a; is_const b;
+      let v := eval vm_compute in (Z.eqb a b) in change (Z.eqb a b) with v
+  end; cbv iota; cbn [orb andb negb].
